@@ -4,7 +4,7 @@
    The modelled operations (Model.v, ModelF.v) contain every conversion / wrap modulo 2^w of the C and RecInt types and
    every IEEE rounding explicitly, so "= exact residue" states that no overflow, wrap or rounding is observable. *)
 From Coq Require Import ZArith List.
-From C03 Require Import Model ModelF Params ProofsInt ProofsEuclid ProofsIntInv ProofsRU ProofsFM ProofsBI ProofsBarrett ProofsBarrettM ProofsTop.
+From C03 Require Import Model ModelF Params ProofsInt ProofsEuclid ProofsIntInv ProofsRU ProofsFM ProofsBI ProofsBarrett ProofsBarrettM ProofsPrecomp ProofsMisc ProofsTop.
 Local Open Scope Z_scope.
 
 (* integral Modular<S,C>: every instantiated (Storage_t, Compute_t) pair, every p in [minCardinality, maxCardinality] *)
@@ -66,3 +66,12 @@ Proof. exact barrett_bound. Qed.
 Print Assumptions C03_barrett_quotient_within_one.
 Theorem C03_mul_precomp_p_exact : forall sb sg cb p, Mulpp_stmt sb sg cb p.   Proof. exact mulpp_exact. Qed.
 Print Assumptions C03_mul_precomp_p_exact.
+(* the complete Barrett chain: precomp_p (bitsize loop, inverse) followed by mul_precomp_p, every width pair, every modulus inside
+   the asserted precondition 2 <= p < 2^(4*sizeof(Compute_t) - 2), canonical operands *)
+Theorem C03_precomp_p_then_mul_precomp_p_exact : forall sb sg cb p, Mulpp_chain_stmt sb sg cb p.   Proof. exact mulpp_chain_exact. Qed.
+Print Assumptions C03_precomp_p_then_mul_precomp_p_exact.
+(* Modular<Integer>: the code's case splits over exact Integer operations give the canonical residue, for every modulus >= 2 *)
+Theorem C03_integer_ring_exact : forall p, ZZ_stmt p.             Proof. exact zz_exact. Qed.
+Print Assumptions C03_integer_ring_exact.
+Theorem C03_recint_isUnit_iff_gcd_one : RU_isUnit_adv_stmt.        Proof. exact ru_isUnit_adv. Qed.
+Print Assumptions C03_recint_isUnit_iff_gcd_one.
